@@ -221,6 +221,11 @@ def run(prog, chk):
         sub = [x for x in SX.walk(c.e) if x['k'] == 'index' and SX.is_node(x['base']) and x['base'].get('name') == mf]
         okp = bool(sub) and all(SX.is_node(x['i']) and x['i'].get('kind') == 'param' for x in sub)
         chk.ob('R06.5', se, c.ln, ok and okp, 'simulator guard: m_measured[param] true ⇒ throw BlochError(Runtime)', key='sim-ensure-throws')
+        # … and only then: every path to that throw takes the true edge of the flag test (an unmeasured qubit is never refused)
+        tedges = [x for x in c.succ if x.kind == 'edge' and x.pol]
+        only = bool(throws) and bool(tedges) and all(g.must_precede(set(tedges), t) for t in throws)
+        chk.ob('R06.5', se, c.ln, only, 'simulator guard refuses a qubit only when its measured flag is set (the refusal is reachable only through the flag test\'s true edge)',
+               key='sim-ensure-only-measured')
     for f in list(sim['gates']) + [sim['measure']]:
         g = prog.cfg(f)
         touch = [n for n in g.nodes if n.kind in ('call', 'assign', 'cond', 'decl', 'incdec') and _mentions_member(n, amp)]
